@@ -25,4 +25,4 @@ Separate Extraction
   Graphics.set_pixel Graphics.apply_write Graphics.size Graphics.all_rot
   Aliases.aliases
   (* controller models, checks and the per-call oracle (ocaml/oracle.ml) *)
-  Oracle.observe Oracle.observe_new Oracle.lut_ref Hist.init_sig Hist.P Specs.spec_of Sys.sym Sys.sys_new.
+  Oracle.observe Oracle.observe_new Oracle.lut_ref Oracle.clear_ref Hist.init_sig Hist.P Specs.spec_of Sys.sym Sys.sys_new.
